@@ -50,6 +50,10 @@ func (o *Out) Emit(c Case) {
 	mb, _ := json.Marshal(c.Meta)
 	o.meta.Write(mb)
 	o.meta.WriteByte('\n')
+	// flushed per case: if the implementation kills this process (fatal error), the number of complete lines
+	// tells bin/check which case did it
+	o.w.Flush()
+	o.meta.Flush()
 	if c.Nontrivial {
 		k := c.Key
 		if k == "" {
